@@ -262,10 +262,92 @@ package gojq
 //@   property C11
 //@   ensures c == sign(rank(l) - rank(r))
 
-// Object comparison (sorted key lists, then values in key order) is NOT verified against an
-// independent specification: cmpv on two objects is defined as what Compare$3 returns.
-//@ trusted Compare$3(l, r map[string]any) (c int)
-//@   defines c == cmpv(l, r)
+// Objects: by sorted key list, then by the values in key order (property text). skey(m, i) is the
+// i-th smallest key of m, kidx its inverse. kfd / vfd are the first positions where the key lists /
+// the values (in key order) differ.
+//@ spec func skey(m map[string]any, i int) string reads HMD_string_any HML_string_any
+//@ spec func kidx(m map[string]any, k string) int reads HMD_string_any HML_string_any
+//@ axiom skey_in: forall m map[string]any; i int :: {skey(m, i)} 0 <= i && i < len(m) ==> (skey(m, i) in m)
+//@ axiom skey_all: forall m map[string]any; k string :: {kidx(m, k)} (k in m) ==> 0 <= kidx(m, k) && kidx(m, k) < len(m) && skey(m, kidx(m, k)) == k
+//@ axiom skey_sorted: forall m map[string]any; i, j int :: {skey(m, i), skey(m, j)} 0 <= i && i < j && j < len(m) ==> skey(m, i) < skey(m, j)
+//@ spec func kfd(a, b map[string]any) int reads HMD_string_any HML_string_any
+//@ axiom kfd_def: forall a, b map[string]any :: {kfd(a, b)} 0 <= kfd(a, b) && kfd(a, b) <= min(len(a), len(b))
+//@ axiom kfd_zero: forall a, b map[string]any; j int :: {kfd(a, b), skey(a, j)} 0 <= j && j < kfd(a, b) ==> skey(a, j) == skey(b, j)
+//@ axiom kfd_diff: forall a, b map[string]any :: {kfd(a, b)} kfd(a, b) < min(len(a), len(b)) ==> skey(a, kfd(a, b)) != skey(b, kfd(a, b))
+//@ spec func cmpkeys(a, b map[string]any) int = (kfd(a, b) < min(len(a), len(b))) ? cmps(skey(a, kfd(a, b)), skey(b, kfd(a, b))) : sign(len(a) - len(b))
+//@ spec func vfd(a, b map[string]any) int reads HE_any HMD_string_any HMV_string_any HML_string_any
+//@ axiom vfd_def: forall a, b map[string]any :: {vfd(a, b)} 0 <= vfd(a, b) && vfd(a, b) <= len(a)
+//@ axiom vfd_zero: forall a, b map[string]any; j int :: {vfd(a, b), skey(a, j)} 0 <= j && j < vfd(a, b) ==> cmpv(a[skey(a, j)], b[skey(a, j)]) == 0
+//@ axiom vfd_diff: forall a, b map[string]any :: {vfd(a, b)} vfd(a, b) < len(a) ==> cmpv(a[skey(a, vfd(a, b))], b[skey(a, vfd(a, b))]) != 0
+//@ axiom cmpv_obj: forall a, b map[string]any :: {vfd(a, b)} cmpv(a, b) ==
+//@     ((cmpkeys(a, b) != 0) ? cmpkeys(a, b) : ((vfd(a, b) < len(a)) ? cmpv(a[skey(a, vfd(a, b))], b[skey(a, vfd(a, b))]) : 0))
+
+// ASSUMED: keys(v) is the sorted list of v's keys (a range over the map visits every key once,
+// sort.Strings sorts byte-wise). Everything else about objects is proved from it.
+//@ trusted keys(v map[string]any) (w []string)
+//@   ensures fresh(w) && len(w) == len(v)
+//@   ensures forall i :: {w[i]} 0 <= i && i < len(w) ==> w[i] == skey(v, i)
+
+//@ func funcKeys(v any) (r any)
+//@   property C11
+//@   using skey_in
+//@   loop 2 invariant forall j :: {w[j]} 0 <= j && j <= rangeindex ==> (w[j] is string) && w[j].(string) == skey(v.(map[string]any), j)
+//@   ensures (v is map[string]any) ==> (r is []any) && fresh(r.([]any)) && len(r.([]any)) == len(v.(map[string]any))
+//@   ensures (v is map[string]any) ==> forall i :: {r.([]any)[i]} 0 <= i && i < len(r.([]any)) ==> (r.([]any)[i] is string) && r.([]any)[i].(string) == skey(v.(map[string]any), i)
+//@   ensures (v is []any) ==> (r is []any) && len(r.([]any)) == len(v.([]any))
+
+// keyList(m, ks): ks is the sorted key list of m as funcKeys returns it.
+//@ pred keyList(m map[string]any, ks []any) = len(ks) == len(m) && forall i :: {ks[i]} 0 <= i && i < len(ks) ==> (ks[i] is string) && ks[i].(string) == skey(m, i)
+
+// Comparing the two key lists as arrays is comparing the key sets in sorted order.
+//@ lemma keys_cmp(l map[string]any, r map[string]any, lk []any, rk []any)
+//@   property C11
+//@   using str_lt_irrefl
+//@   requires keyList(l, lk) && keyList(r, rk)
+//@   use fd_def(lk, rk)
+//@   use fd_diff(lk, rk)
+//@   use fd_zero(lk, rk, kfd(l, r))
+//@   use kfd_def(l, r)
+//@   use kfd_diff(l, r)
+//@   use kfd_zero(l, r, fd(lk, rk))
+//@   use cmpv_arr(lk, rk)
+//@   use cmpv_str(lk[fd(lk, rk)], rk[fd(lk, rk)])
+//@   use cmpv_str(lk[kfd(l, r)], rk[kfd(l, r)])
+//@   ensures cmpv(lk, rk) == cmpkeys(l, r)
+
+//@ lemma vfd_unique(l map[string]any, r map[string]any, i int)
+//@   property C11
+//@   using vfd_def vfd_zero vfd_diff
+//@   requires 0 <= i && i < len(l) && cmpv(l[skey(l, i)], r[skey(l, i)]) != 0
+//@   requires forall j :: {skey(l, j)} 0 <= j && j < i ==> cmpv(l[skey(l, j)], r[skey(l, j)]) == 0
+//@   use vfd_def(l, r)
+//@   use vfd_zero(l, r, i)
+//@   use vfd_diff(l, r)
+//@   ensures vfd(l, r) == i
+
+//@ lemma vfd_all(l map[string]any, r map[string]any)
+//@   property C11
+//@   using vfd_def vfd_zero vfd_diff
+//@   requires forall j :: {skey(l, j)} 0 <= j && j < len(l) ==> cmpv(l[skey(l, j)], r[skey(l, j)]) == 0
+//@   use vfd_def(l, r)
+//@   use vfd_diff(l, r)
+//@   ensures vfd(l, r) == len(l)
+
+//@ func Compare$3(l, r map[string]any) (c int)
+//@   property C11
+//@   using cmpv_range
+//@   returns 3
+//@   loop 1 invariant (lk is []any) && (rk is []any) && -1 <= rangeindex && rangeindex < len(lk.([]any)) && keyList(l, lk.([]any)) && keyList(r, rk.([]any)) && cmpv(lk, rk) == 0
+//@   loop 1 invariant forall j :: {skey(l, j)} 0 <= j && j <= rangeindex ==> cmpv(l[skey(l, j)], r[skey(l, j)]) == 0
+//@   return 1 use keys_cmp(l, r, lk.([]any), rk.([]any))
+//@   return 1 use cmpv_obj(l, r)
+//@   return 2 use keys_cmp(l, r, lk.([]any), rk.([]any))
+//@   return 2 use vfd_unique(l, r, rangeindex + 1)
+//@   return 2 use cmpv_obj(l, r)
+//@   return 3 use keys_cmp(l, r, lk.([]any), rk.([]any))
+//@   return 3 use vfd_all(l, r)
+//@   return 3 use cmpv_obj(l, r)
+//@   ensures c == cmpv(l, r)
 
 //@ func binopTypeSwitch[int]@Compare(l, r any, callbackInts, callbackFloats, callbackBigInts, callbackStrings, callbackArrays, callbackMaps, fallback) (c int)
 //@   property C11 C10
